@@ -88,6 +88,33 @@ func checkConsensus(c Case) error {
 			}
 		}
 		rec.Label("consensus:address-binding-checked")
+		// the signature hash is part of the meaning wherever the verdict is formed: a second transaction validated on
+		// the same MidState (same block, or a transaction pool) that spends another output of the address with this
+		// transaction's witnesses is accepted exactly when the reference accepts those witnesses for ITS hash
+		parent := types.V2Transaction{SiacoinOutputs: []types.SiacoinOutput{{Value: types.Siacoins(1), Address: addr}}}
+		parent2 := types.V2Transaction{SiacoinOutputs: []types.SiacoinOutput{{Value: types.Siacoins(2), Address: addr}}}
+		sp := types.SatisfiedPolicy{Policy: presented, Signatures: sigs, Preimages: pres}
+		first := types.V2Transaction{SiacoinInputs: []types.V2SiacoinInput{{Parent: parent.EphemeralSiacoinOutput(0), SatisfiedPolicy: sp}}, MinerFee: types.Siacoins(1)}
+		second := types.V2Transaction{SiacoinInputs: []types.V2SiacoinInput{{Parent: parent2.EphemeralSiacoinOutput(0), SatisfiedPolicy: sp}}, MinerFee: types.Siacoins(2)}
+		ms := consensus.NewMidState(cs)
+		ms.ApplyV2Transaction(parent)
+		ms.ApplyV2Transaction(parent2)
+		if cs.InputSigHash(first) != msg {
+			return stats.Failf("", "harness: the first transaction of the replay pair has another signature hash")
+		}
+		if e := consensus.ValidateV2Transaction(ms, first); e != nil {
+			return stats.Failf("C14/consensus-verdict/second-parent-on-midstate", "accepted witnesses are refused when the MidState holds a second parent transaction: %v (policy %s)", e, short(root))
+		}
+		ms.ApplyV2Transaction(first)
+		want2 := refAccepts(root, sh, c.H, c.T, c.TN, cs.InputSigHash(second), sigs, pres)
+		if e := consensus.ValidateV2Transaction(ms, second); (e == nil) != want2 {
+			return stats.Failf("C14/consensus-verdict/witnesses-of-an-earlier-transaction", "a second transaction on the same MidState carrying the first one's witnesses: err=%v, reference accepted=%v (policy %s, witnesses %s)", e, want2, short(root), witnessText(&c))
+		}
+		if !want2 {
+			rec.Label("consensus:replayed-witnesses-refused")
+		} else {
+			rec.Label("consensus:replayed-witnesses-need-no-signature")
+		}
 	}
 	verdict := "reject"
 	if err == nil {
